@@ -11,6 +11,7 @@ import re
 import time
 
 import z3
+from fractions import Fraction
 
 from vlib import env, gen
 from vlib.zrun import twin_verdict, explore_and_prove, all_eq, concretize, pyrepr, eq_term, wrapper_exc
@@ -362,7 +363,7 @@ def task_lindep(systems, maxpref):
             conv = Conv()
             yz = [conv(d) for d in odesys.dep]
             y0z = [conv(y0[d]) for d in odesys.dep]
-            hyp = [z3.Sum([int(b) * (yz[i] - y0z[i]) for i, b in enumerate(row)]) == 0 for row in B]
+            hyp = [z3.Sum([z3.Q(Fraction(str(b)).numerator, Fraction(str(b)).denominator) * (yz[i] - y0z[i]) for i, b in enumerate(row)]) == 0 for row in B]
             for kdep, expr in sol.items():
                 res["obligations"] += 1
                 t0 = time.time()
@@ -413,7 +414,7 @@ for label, variables, pick in (("scalars", dict(conc), lambda v: v),
     for rep in (1, 2):
         rates = rsys.rates(variables)
         for row, k in zip(B, ck):
-            tot = sum(int(b) * pick(rates.get(n, 0)) for n, b in zip(names, row))
+            tot = sum(Fraction(str(b)) * pick(rates.get(n, 0)) for n, b in zip(names, row))   # exact, also for fractional compositions
             if tot != 0: bad.append("%%s, evaluation %%d: composition key %%s is not conserved by the rates (sum = %%s)" %% (label, rep, k, tot))
 for b in bad[:6]: print("MISMATCH", b)
 sys.exit(1 if bad else 0)
@@ -460,7 +461,7 @@ def task_invariants(systems):
                 res["obligations"] += 1
                 t0 = time.time()
                 conv = Conv()
-                tot = sum(int(b) * pick(rates.get(n, 0)) for n, b in zip(names, row))
+                tot = sum(sympy.Rational(str(b)) * pick(rates.get(n, 0)) for n, b in zip(names, row))   # exact, also for fractional compositions
                 try:
                     tz = conv(sympy.sympify(tot))
                 except NotImplementedError as e:
@@ -583,4 +584,12 @@ def tasks(tier, seed):
         ch = systems[i:: (2 if tier == "quick" else 8)]
         if ch:
             ts.append(dict(id="C05.invariants.%02d" % i, fn="task_invariants", kwargs=dict(systems=ch), timeout=1800))
+    # LARGE: a hub species (H+) that takes part in 9 and in 17 reactions; a fractional composition
+    ts.append(dict(id="C05.invariants.large", fn="task_invariants", kwargs=dict(systems=[
+        ["H+ + Cl- -> HCl", "H+ + Br- -> HBr", "H+ + F- -> HF", "H+ + I- -> HI", "H+ + OH- -> H2O", "H+ + NH3 -> NH4+", "H+ + HS- -> H2S",
+         "H+ + CN- -> HCN", "H+ + NO2- -> HNO2"],
+        ["H+ + Cl- -> HCl", "H+ + Br- -> HBr", "H+ + F- -> HF", "H+ + I- -> HI", "H+ + OH- -> H2O", "H+ + NH3 -> NH4+", "H+ + HS- -> H2S",
+         "H+ + CN- -> HCN", "H+ + NO2- -> HNO2", "H+ + NO3- -> HNO3", "H+ + HCO3- -> H2CO3", "H+ + CO3-2 -> HCO3-", "H+ + HSO4- -> H2SO4",
+         "H+ + SO4-2 -> HSO4-", "H+ + H2PO4- -> H3PO4", "H+ + HPO4-2 -> H2PO4-", "H+ + PO4-3 -> HPO4-2"],
+        ["2 CaSO4(H2O)0.5 -> 2 CaSO4 + H2O", "H2O -> H+ + OH-"]]), timeout=1800))
     return ts
